@@ -8,6 +8,7 @@ for d in "$@"; do
   git -C /repo apply $S/patch.diff
   out=$(timeout 900 ./check $P quick 2>&1)
   git -C /repo checkout -- . ; git -C /repo clean -fdq internal libs cmd pkg 2>/dev/null
+  git -C /verif checkout -- evidence/$P.json 2>/dev/null   # the evidence file just written describes the patched tree: put the committed one back
   if echo "$out" | grep -q "^VIOLATION"; then echo "$d $P CAUGHT $(echo "$out" | grep -m1 'violation key' | cut -c1-110)";
   elif echo "$out" | grep -q "UNDECIDED"; then echo "$d $P UNDECIDED $(echo "$out" | grep -m1 UNDECIDED | cut -c1-120)";
   else echo "$d $P MISSED"; fi
